@@ -1,5 +1,6 @@
 //! Correspondence harness for the "pure" clusters (no RocksDB): drives the real
 //! fuel-core crates on generated inputs and prints canonical observations.
+mod c26;
 mod c27;
 mod c28;
 
@@ -7,6 +8,7 @@ use vcommon::{Rng, T};
 
 fn gen(prop: &str, rng: &mut Rng, n: u64, tier: &str) -> Vec<T> {
     match prop {
+        "C26" => c26::gen(rng, n, tier),
         "C27" => c27::gen(rng, n, tier),
         "C28" => c28::gen(rng, n, tier),
         p => panic!("unknown property {p}"),
@@ -15,6 +17,7 @@ fn gen(prop: &str, rng: &mut Rng, n: u64, tier: &str) -> Vec<T> {
 
 fn run(prop: &str, input: &T) -> T {
     match prop {
+        "C26" => c26::run(input),
         "C27" => c27::run(input),
         "C28" => c28::run(input),
         p => panic!("unknown property {p}"),
